@@ -7,7 +7,7 @@ boundary, cut at every position around it). The reader must raise, must not cras
 the error (observed through an NDJSON writer, which emits one line per value immediately) must equal the value written at
 that position."""
 import json, os
-from multiprocessing import Pool
+from build import Pool
 
 import am, build, cppdrv, refcodec, roundtrip, rtengine, shapes, values
 from am import P, N, Stream, Protocol, Package
